@@ -162,7 +162,7 @@ func (r *runner) drain() error {
 // call is one that waits for a queued snapshot (setRow, clearRow, the large importValue
 // path): the worker is played at once. Any other call must return on its own and the
 // queue is left alone (what is queued stays queued, as the specification says); should
-// such a call not have returned after 3 s the worker is played too and the case is
+// such a call not have returned after 10 s the worker is played too and the case is
 // counted under blocked_until_worker_ran.
 func (r *runner) withWorker(awaits bool, fn func() error) error {
 	if !r.hasQ {
@@ -188,7 +188,7 @@ func (r *runner) withWorker(awaits bool, fn func() error) error {
 		select {
 		case err := <-done:
 			return finish(err)
-		case <-time.After(3 * time.Second):
+		case <-time.After(10 * time.Second):
 			r.cov("blocked_until_worker_ran")
 		}
 	}
@@ -506,7 +506,7 @@ func (r *runner) open(maxopn string) error {
 func (r *runner) close() {
 	if r.f != nil {
 		// after a panic inside the code under test the fragment may never finish closing
-		// (Close waits for a snapshot that will not come): give it a second, then leave it
+		// (Close waits for a snapshot that will not come): give it ten seconds, then leave it
 		done := make(chan struct{})
 		go func() {
 			defer close(done)
@@ -517,7 +517,7 @@ func (r *runner) close() {
 		}()
 		select {
 		case <-done:
-		case <-time.After(time.Second):
+		case <-time.After(10 * time.Second):
 			r.cov("close_abandoned_after_failure")
 		}
 	}
